@@ -9,6 +9,7 @@ reorder_equations applies a permutation or raises before touching the model.  Th
 outside the engine's reach and are covered by the exhaustive bounded stand-in over ALL matrices with a perfect
 matching for n <= 4 (the bound the property itself names) - never counted as proved."""
 import itertools
+import re
 import numpy as np
 from pyvc.prove import contract
 from pyvc.bounded import bounded
@@ -295,3 +296,138 @@ def split_ids_pairs_in_index_order(K, n, m):
         rank = sum(K.ite(K.Or(*[index[j] == q for j in range(m)]) if m else False, 0, 1) for q in range(p))
         for k in range(len(rem)):
             K.ensure(f"position {p} kept as remaining[{k}] when it is the {k}-th unselected position", K.Implies(K.And(K.Not(sel), rank == k), rem[k] == ids[p]))
+
+
+# ------------------------------------------------------------------------------ the incidence matrix handed to the block analysis
+from irispie import equations as EQS
+from irispie.incidences.main import Token as _Token
+
+
+class _Eq:
+    """harness equation: only the incidence tokens matter here"""
+    def __init__(self, incidence):
+        self.incidence = incidence
+
+
+@contract("C16", targets=["irispie.equations:calculate_incidence_matrix"], instances=[(0,), (1,), (2,)], opts={"max_paths": 200})
+def incidence_matrix_has_a_cell_for_every_token(K, variant):
+    """Cell (i, j) of the incidence matrix is True iff some incidence token of equation i is mapped to column j by the
+    caller's column function (None = not a column of this analysis) - for every column, column 0 included."""
+    tokens = {0: [[(5, 0), (7, -1), (9, 0)], [(7, 0)], [(9, 1), (5, -2), (3, 0)]],
+              1: [[(3, 0)], [(5, 0), (3, -1)], [(9, 0)], [(7, 0), (7, -1)]],
+              2: [[], [(3, 0), (5, 0), (7, 0), (9, 0)]]}[variant]
+    col_of = {3: 0, 5: 1, 7: 2, 9: None} if variant != 1 else {3: 2, 5: 0, 7: None, 9: 1}        # qid -> column (None: not among the unknowns)
+    ncols = 3
+    eqs = [K.obj(_Eq, incidence=tuple(_Token(q, s) for q, s in toks)) for toks in tokens]
+    im = K.call(EQS.calculate_incidence_matrix, eqs, ncols, K.callable(lambda tok: col_of[tok[0]]))       # Token = (qid, shift)
+    K.ensure("shape", K.shape(im) == (len(tokens), ncols))
+    for i, toks in enumerate(tokens):
+        for j in range(ncols):
+            want = any(col_of[q] == j for q, _ in toks)
+            K.ensure(f"cell ({i},{j})", K.bool_cell(im, i, j) == want)
+
+
+# ------------------------------------------------------------------------------ prefetch: how the recursion levels are merged
+@contract("C16", targets=[PB + "prefetch"], instances=[()], cross=0)
+def prefetch_orders_deeper_singletons_inside_the_outer_ones(K):
+    """One recursion step of prefetch with its three callees replaced by stubs (STUB assumptions in the evidence):
+    singletons that can go FIRST found at a deeper level follow the outer ones (they may use the outer quantities);
+    singletons that can go LAST found at a deeper level PRECEDE the outer ones (the outer equations may use their
+    quantities: a 'last' quantity occurs in no other REMAINING equation, but the equations already peeled off are not
+    among the remaining ones)."""
+    if not K.symbolic:
+        return
+    im4 = K.array("IM", (4, 4), kind="bool")
+    im3, im2, im0 = K.array("IM3", (3, 3), kind="bool"), K.array("IM2", (2, 2), kind="bool"), K.array("IM0", (0, 0), kind="bool")
+    depth = [0]
+
+    def rec(im, eids=None, qids=None):
+        depth[0] += 1
+        if depth[0] == 1:
+            return K.DECLINE
+        return ((12,), (22,), (13,), (23,), (), (), im0)          # deeper level: first (12 | 22), last (13 | 23), nothing remains
+    r = K.stubbed(BZ._prefetch_first, lambda im, eids, qids: ((10,), (20,), (11, 12, 13), (21, 22, 23), im3), "outer level: equation 10 / quantity 20 can go first",
+                  lambda: K.stubbed(BZ._prefetch_last, lambda im, eids, qids: ((11,), (21,), (12, 13), (22, 23), im2), "outer level: equation 11 / quantity 21 can go last",
+                                    lambda: K.stubbed(BZ.prefetch, rec, "deeper level of the recursion", lambda: K.call(BZ.prefetch, im4, eids=(10, 11, 12, 13), qids=(20, 21, 22, 23)))))
+    ef, qf, el, ql, er, qr, imr = r
+    K.ensure("first: outer then deeper", tuple(ef) == (10, 12) and tuple(qf) == (20, 22))
+    K.ensure("last: deeper then outer", tuple(el) == (13, 11) and tuple(ql) == (23, 21))
+    K.ensure("what remains is what the deepest level left", tuple(er) == () and tuple(qr) == () and K.shape(imr) == (0, 0))
+
+
+@contract("C16", targets=[PB + "_prefetch_first", PB + "_prefetch_last", PB + "_split_ids"], instances=[("first", 3), ("last", 3)], opts={"max_paths": 4000})
+def prefetch_level_peels_exactly_the_singletons(K, which, n):
+    """One level of prefetch on an n x n incidence matrix (every entry symbolic): 'first' peels the equations with exactly
+    one incidence together with the quantity of that incidence, 'last' the quantities occurring in exactly one equation
+    together with that equation; ids are reported in index order, the remaining ids keep their order, and the remaining
+    matrix is the original without the peeled rows and columns."""
+    im = K.array("IM", (n, n), kind="bool")
+    eids, qids = tuple(range(100, 100 + n)), tuple(range(200, 200 + n))
+    fn = BZ._prefetch_first if which == "first" else BZ._prefetch_last
+    e_x, q_x, e_rem, q_rem, im_rem = K.call(fn, im, eids, qids)
+    cell = (lambda i, j: K.bool_cell(im, i, j)) if which == "first" else (lambda i, j: K.bool_cell(im, j, i))       # 'last' is 'first' on the transpose
+    lines_ids, cross_ids = (eids, qids) if which == "first" else (qids, eids)
+    got_lines, got_cross = (list(e_x), list(q_x)) if which == "first" else (list(q_x), list(e_x))
+    rem_lines, rem_cross = (list(e_rem), list(q_rem)) if which == "first" else (list(q_rem), list(e_rem))
+    # on this path the singleton pattern is decided (the code branched on it): read it back from the result
+    single = [i for i in range(n) if lines_ids[i] in got_lines]
+    for i in range(n):
+        count = sum(K.ite(cell(i, j), 1, 0) if K.symbolic else int(cell(i, j)) for j in range(n))
+        K.ensure(f"line {i} is peeled iff it has exactly one incidence", (count == 1) == (i in single))
+    K.ensure("peeled lines are reported in index order", got_lines == [lines_ids[i] for i in single])
+    K.ensure("remaining lines keep their order", rem_lines == [lines_ids[i] for i in range(n) if i not in single])
+    cols = []
+    for k, i in enumerate(single):
+        j = cross_ids.index(got_cross[k]) if got_cross[k] in cross_ids else None
+        K.ensure(f"peeled line {i}: the partner reported is the one incidence of that line", j is not None and cell(i, j))
+        cols.append(j)
+    K.ensure("remaining partners are the ones not peeled, in order", rem_cross == [cross_ids[j] for j in range(n) if j not in cols])
+    keep_l, keep_c = [i for i in range(n) if i not in single], [j for j in range(n) if j not in cols]
+    shape = (len(keep_l), len(keep_c)) if which == "first" else (len(keep_c), len(keep_l))
+    K.ensure("shape of the remaining matrix", K.shape(im_rem) == shape)
+    if K.shape(im_rem) == shape:
+        for a, i in enumerate(keep_l):
+            for b, j in enumerate(keep_c):
+                got = K.bool_cell(im_rem, a, b) if which == "first" else K.bool_cell(im_rem, b, a)
+                K.ensure(f"remaining cell ({a},{b}) is original cell ({i},{j})", got == cell(i, j))
+
+
+# ------------------------------------------------------------------------------ which equations and unknowns form the steady system
+from irispie.simultaneous import _steady as STD
+AUTO_SRC = "!transition-variables\n a, b, c, d\n!parameters\n p, q, r, s\n!transition-shocks\n e\n!measurement-variables\n y\n" \
+           "!transition-equations\n a = p*b + c[-1];\n b = q + d + e;\n c = a + b + c[+1]/2;\n d = p;\n" \
+           "!steady-autovalues\n r = a + 1;\n s = 2*d;\n!measurement-equations\n y = a + d;\n"
+
+
+@contract("C16", targets=["irispie.simultaneous._steady:_resolve_steady_wrt", "irispie.simultaneous._steady:_calculate_steady_incidence_matrix"],
+          instances=[(False,), (True,)], cross=0, opts={"max_paths": 200})
+def steady_system_is_square_and_made_of_the_model_equations(K, with_plan):
+    """The system handed to the block analysis consists of the transition and measurement equations (NOT the
+    !steady-autovalues, which are evaluated after the solution) and of as many unknowns: the endogenous variables, with
+    exogenized ones swapped for the endogenized parameters of a steady plan."""
+    m = ir.Simultaneous.from_string(AUTO_SRC)
+    plan = None
+    unknowns = ["a", "b", "c", "d", "y"]
+    if with_plan:
+        plan = ir.SteadyPlan(m)
+        plan.exogenize("d")
+        plan.endogenize("p")
+        unknowns = ["a", "b", "c", "p", "y"]
+    wrt = K.call(STD._resolve_steady_wrt, K.lift(m), K.lift(plan) if plan is not None else None, is_flat=True)
+    n2q = m.create_name_to_qid()
+    fields = list(STD._Wrt._fields)
+    w_equations, w_qids = wrt[fields.index("equations")], wrt[fields.index("qids")]        # _Wrt is a named tuple
+    eqs = list(K.items(w_equations))
+    humans = [K.attr(e, "human") for e in eqs]
+    K.ensure("the equations are the transition and measurement equations", sorted(humans) == sorted(["a=p*b+c[-1]", "b=q+d+e", "c=a+b+c[+1]/2", "d=p", "y=a+d"]))
+    K.ensure("the unknowns", tuple(w_qids) == tuple(sorted(n2q[n] for n in unknowns)))
+    K.ensure("square system", len(eqs) == len(tuple(w_qids)))
+    im = K.call(STD._calculate_steady_incidence_matrix, w_equations, w_qids)
+    K.ensure("incidence matrix: one row per equation, one column per unknown", K.shape(im) == (5, 5))
+    qids = list(w_qids)
+    q2n = {v: k for k, v in n2q.items()}
+    for i, h in enumerate(humans):
+        for j, q in enumerate(qids):
+            name = q2n[q]
+            occurs = re.search(r"(?<![A-Za-z_0-9])" + re.escape(name) + r"(?![A-Za-z_0-9])", h) is not None
+            K.ensure(f"incidence of {name} in '{h}' (at any lag or lead)", K.bool_cell(im, i, j) == occurs)
